@@ -121,7 +121,7 @@ def _run_property(ctx):
                       {'kind': 'obligation', 'theorem': 'gen/C03_Tables.lean', 'output': note}, found=False, classify=False)
 
 
-MERGE_MODEL_THEOREMS = ['Nbdime.C03_model_keywise_total']
+MERGE_MODEL_THEOREMS = ['Nbdime.C03_model_keywise_total', 'Nbdime.C03_model_cells_total', 'Nbdime.C03_model_mixed_total', 'Nbdime.makeMergeChunks_ok']
 THEOREMS.extend(t for t in MERGE_MODEL_THEOREMS if t not in THEOREMS)
 
 
